@@ -421,3 +421,120 @@ func init() {
 		}
 	}
 }
+
+// ---- JSON load family for the comparator trees ------------------------------------------------
+//
+// The ordinary round-trip jobs stop at 4/6 elements and FromJSON cannot be an operation of the tree
+// alphabets (on the pinned tree the shape after a load depends on Go's map order, which would break
+// the determinism the fixpoint search relies on).  A loaded tree is nevertheless a start state of
+// every history.  This job enumerates a FAMILY exhaustively: for every size n up to a bound the tree
+// holding the keys {0, 2, .., 2n-2} is serialised and loaded into a fresh tree (both entry points);
+// the loaded tree is judged by the original's reference (content, order, shape, comparator-call
+// bounds) and then every operation sequence of length <= 2 (n <= deepN) or 1 over Put/Remove of
+// EVERY key of {0..2n} (present keys and every gap) and Clear is applied to it, each step under the
+// family's full oracle.  Whatever shape the load produced, the oracle must hold, so the map order
+// cannot cause an alarm; it can only make a violation need several tries to reproduce.
+func jsonFamilyJob(j Job, r *JobResult) {
+	maxN, deepN := j.p("maxn", 40), j.p("deepn", 12)
+	r.St = Stats{Nested: map[string]int{}, PerSize: map[int]int{}, OpsHistogram: map[string]int{}, Exhaustive: true}
+	sizes := intRange(0, maxN)
+	if j.Replay != nil && len(j.Replay.Path) > 0 {
+		sizes = []int{len(j.Replay.Path)}
+	}
+	var sysName string
+	for _, n := range sizes {
+		jj := j
+		jj.P = map[string]int{}
+		for k, v := range j.P {
+			jj.P[k] = v
+		}
+		jj.P["u"], jj.P["n"], jj.P["vu"] = 2*n+1, n+2, 2*n+1
+		sys := kvSysFromJob(jj)
+		sysName = sys.Name()
+		var fill []Op
+		probe := sys.New().(Box)
+		two := false
+		for _, o := range probe.Ops() {
+			if o.N == "put" && len(o.A) == 2 {
+				two = true
+			}
+		}
+		for i := 0; i < n; i++ {
+			if two {
+				fill = append(fill, op("put", 2*i, 2*n-2*i)) // bidirectional maps: values in reverse order
+			} else {
+				fill = append(fill, op("put", 2*i))
+			}
+		}
+		for _, via := range []string{"FromJSON", "json.Unmarshal"} {
+			via := via
+			var loadErr error
+			var text []byte
+			mk := func() Box {
+				x := sys.New().(Box)
+				for _, o := range fill {
+					if v := x.Step(o); v != nil {
+						panic("tool error: json family prefix diverged: " + v.Msg)
+					}
+				}
+				out, err := jio(x).ToJSON()
+				if err != nil {
+					panic("tool error: ToJSON failed in the json family: " + err.Error())
+				}
+				text = out
+				y := x.Fresh()
+				if via == "FromJSON" {
+					loadErr = jio(y).FromJSON(out)
+				} else {
+					loadErr = json.Unmarshal(out, y.Obj())
+				}
+				y.AdoptRef(x)
+				return y
+			}
+			found := func(v *Viol) bool {
+				if v == nil && j.Prop == "C17" {
+					v = outGuardCheck("json load family")
+				}
+				if v == nil {
+					return false
+				}
+				v.Msg = fmt.Sprintf("%s holding the %d keys {0,2,..,%d}, serialised and reloaded through %s: %s", sysName, n, 2*n-2, via, v.Msg)
+				v = retagKeep(v, "C11")
+				v = retagKeep(v, "C12")
+				if !v.Has(j.Prop) {
+					return false
+				}
+				r.Found = &Found{V: v, Path: fill, Calls: append(describePath(sys, fill, nil), fmt.Sprintf("ToJSON -> %s; %s into a fresh container", clip(string(text), 200), via))}
+				r.St.Exhaustive = false
+				return true
+			}
+			inflightSeq.Add(1)
+			var y Box
+			if v := safeCheck(func() *Viol { y = mk(); return nil }, nil, "serialise and reload"); found(v) {
+				return
+			}
+			if loadErr != nil {
+				if found(viol(tag("C11"), "mismatch", "loading the container's own ToJSON output failed: %v", loadErr)) {
+					return
+				}
+				continue
+			}
+			if found(safeCheck(y.CheckState, nil, "observers of the reloaded container")) {
+				return
+			}
+			depth := 1
+			if n <= deepN {
+				depth = 2
+			}
+			if found(exploreFrom(mk, depth, "C12", &r.St, "json_family_followup_transitions")) {
+				return
+			}
+			r.St.Nested["json_family_loads"]++
+		}
+		r.St.States++
+		r.St.PerSize[n]++
+	}
+	r.St.Samples = []any{map[string]any{"system": sysName, "family": "keys {0,2,..,2n-2} for every n up to the bound, serialised and loaded into a fresh container through FromJSON and json.Unmarshal", "max_n": maxN, "followups": fmt.Sprintf("every sequence of <= 2 operations (n <= %d), else 1, over Put/Remove of every key of {0..2n} and Clear", deepN)}}
+}
+
+func init() { jobKinds["jsonfamily"] = jsonFamilyJob }
